@@ -875,6 +875,17 @@ def run_planck(ctx, rng, n):
     xx = np.asarray(M.xval(_S["C"], f[:, None], T[None, :m]), dtype=float)
     drive(ctx, "planck", {"f": f[:, None], "T": T[None, :m], "d": float(d[0])}, "bcast", xx.size,
           "x-grid", _nt_x(xx) & (xx >= 1e-6) & (xx <= 600), (f[:, None] + 0 * xx, T[None, :m] + 0 * xx))
+    # 1-d frequency grid (trailing axis) against a column of temperatures: (k,) x (m,1), incl. the
+    # square case m == k in which leading- and trailing-axis alignment cannot be told apart by shape
+    for square in (True, False):
+        f, T, d, cls, x = gen_ft(rng, max(16, n // 40))
+        k = min(12, f.size)
+        m = k if square else min(7, T.size)
+        fk, Tm = f[:k], T[:m, None]
+        xx = np.asarray(M.xval(_S["C"], fk[None, :], Tm), dtype=float)
+        drive(ctx, "planck", {"f": fk, "T": Tm, "d": float(d[0])}, "bcast-sq" if square else "bcast-row",
+              xx.size, "x-grid", _nt_x(xx) & (xx >= 1e-6) & (xx <= 600),
+              (fk[None, :] + 0 * xx, Tm + 0 * xx))
     # scalar temperature against a frequency array, scalars, 0-d
     f, T, d, cls, x = gen_ft(rng, max(16, n // 40))
     x1 = np.asarray(M.xval(_S["C"], f, T[0]), dtype=float)
